@@ -9,7 +9,7 @@ import verifylib as V
 
 ASSUME = [
     "per alert ID the times of the points (stream) / batches are non-decreasing; overlapping batch windows (period > every) are not explored",
-    "level and reset lambdas evaluate without error (boolean fields present on every point); a missing field is C04/C05 territory",
+    "every point carries every field the lambdas read; errors the task reports anyway are recorded (nerr/nerrc on the Reset lines, node_errors_reported) and the outputs are judged as usual; a missing field is C04/C05 territory",
     "the alert ID has no state restored from an earlier run of the task (C08 covers restore); no inhibitors",
     "with flapping() the documentation fixes the hysteresis on a percentage of state changes but not the weighting: at verdict level the suppression of an event is left open unless the recorded history (last `history` levels) contains no state change",
     "batch event time: the documentation says 'time of the point that triggered the event'; accepted = a point of the batch that has the event's level, or the batch time for all() and for recoveries",
@@ -150,6 +150,11 @@ def run(sc, tier, seed):
     # B1: systematic + seeded random sequences through real tasks, every step validated by TLC
     out, meta = V.run_driver(sc, "c01", tier, seed, timeout=3000)
     R.add_meta(meta)
+    ne = meta.get("extra", {}).get("node_errors_reported", 0)
+    if ne:
+        # behaviour of the code under test, not a harness failure: recorded (Reset lines: nerr/nerrc), TLC judges the outputs
+        V.log("the tasks reported %d error(s) through their diagnostics, e.g. %s" %
+              (ne, "; ".join(meta["extra"].get("node_error_classes", [])[:2])[:300]))
     val = validate(sc, meta["trace_files"])
     R.states += val["states"]
     R.handle_validation(val)
